@@ -314,9 +314,11 @@ class DistributedRateLimiter(Entity):
                 self._global_limit,
             )
 
-            # Create forwarding event to downstream entity
+            # Create forwarding event to downstream entity. The store round
+            # trips above advanced the clock, so stamp it with the current
+            # time rather than the (now stale) arrival time.
             forward_event = Event(
-                time=now,
+                time=self._clock.now if self._clock else now,
                 event_type=f"forward::{event.event_type}",
                 target=self._downstream,
                 context=event.context.copy(),
